@@ -631,6 +631,9 @@ def handleRename (o : Oracle) (e : Entry) (c : Sd) : Res :=
     | .ok =>                                                                      -- 1342-1345
       let me := e.get c
       let e := e.set c { me with p := me.p.setSync }
+      if !t.some then                  -- a `None` target: `sync_path = None`, `update_entry(path=None)` leaves the path alone
+        ⟨.ret .finished, [.rename s], e.set s ({ sy with oid := true, p := sy.p.clearSync }).existsTrue⟩
+      else
       ⟨.ret .finished, [.rename s], (e.set s ({ sy with oid := true, p := .eq }).existsTrue).pathMoved (!t.normEqPath sy.p)⟩
 
 /-! ### `handle_path_change_or_creation` (manager.py 1181-1259) -/
